@@ -4,6 +4,7 @@ import (
 	"fmt"
 	"go/ast"
 	"go/token"
+	"go/types"
 	"strings"
 )
 
@@ -207,6 +208,109 @@ func checkC17(c *Ctx) {
 	acc := setOf(g.successReturns())
 	r := g.gate(eq, acc, nil, -1)
 	_ = r
+	c17RootsFixpoint(c)
+}
+
+// c17RootsFixpoint: updateRoots iterates "each root is at the selected version
+// of its path" to a fixpoint. The loop may stop only when no retained root
+// changed: in the scan of rs.RootModules(), a root whose selected version v
+// differs from the recorded m.Version() — in either direction — must set
+// rootsUpgraded before the next root, and the outer loop may be left only when
+// rootsUpgraded is false.
+func c17RootsFixpoint(c *Ctx) {
+	f := c.fn("internal/mod/modload", "(*loader).updateRoots")
+	cf := newCaseFn(c, f)
+	g := cf.g
+	info := f.Info()
+	// the scan inside the fixpoint loop: a range over rs.RootModules() nested in a `for {}`
+	var scan *ast.RangeStmt
+	var outer *ast.ForStmt
+	ast.Inspect(f.Body, func(n ast.Node) bool {
+		fs, ok := n.(*ast.ForStmt)
+		if !ok || fs.Cond != nil {
+			return true
+		}
+		ast.Inspect(fs.Body, func(m ast.Node) bool {
+			if rs, ok := m.(*ast.RangeStmt); ok && strings.HasSuffix(exprString(rs.X), ".RootModules()") {
+				scan, outer = rs, fs
+			}
+			return true
+		})
+		return true
+	})
+	if scan == nil {
+		c.broken("anchor: updateRoots no longer scans rs.RootModules() inside its fixpoint loop")
+	}
+	head, _, _ := g.rangeLoop(func(rs *ast.RangeStmt) bool { return rs == scan })
+	var flagObj types.Object
+	sets := setOf(g.find(func(n ast.Node) bool {
+		as, ok := n.(*ast.AssignStmt)
+		if !ok || len(as.Lhs) != 1 || exprString(as.Lhs[0]) != "rootsUpgraded" || exprString(as.Rhs[0]) != "true" {
+			return false
+		}
+		if as.Pos() < scan.Pos() || as.End() > scan.End() {
+			return false
+		}
+		flagObj = identObj(info, as.Lhs[0])
+		return true
+	}))
+	// the node that retains the root: roots = append(roots, mv)
+	retain := g.find(func(n ast.Node) bool {
+		as, ok := n.(*ast.AssignStmt)
+		return ok && as.Pos() > scan.Pos() && as.End() < scan.End() && len(as.Lhs) == 1 && exprString(as.Lhs[0]) == "roots" && strings.HasPrefix(exprString(as.Rhs[0]), "append(roots")
+	})
+	ok := head >= 0 && len(sets) > 0 && len(retain) == 1
+	det := ""
+	if ok {
+		key := ""
+		for k := range cf.atoms() {
+			if strings.Contains(k, "m.Version()") && strings.Contains(k, " == ") {
+				key = k
+			}
+		}
+		if key == "" {
+			ok = false
+			det = "; no (in)equality test between the selected version and m.Version() in the scan (a one-sided comparison misses downgrades)"
+		} else {
+			_, vis := cf.walkBlocked(retain[0], map[string]bool{key: false}, sets)
+			if vis[head] {
+				ok = false
+				det = "; with " + key + " false the next root is reached without rootsUpgraded = true"
+			}
+		}
+	}
+	c.check("tidy.roots-fixpoint-detects-any-change", f.Name, scan.Pos(), ok,
+		"in updateRoots' fixpoint loop a retained root whose selected version differs from its recorded version must set rootsUpgraded (any difference, not only an upgrade: removing a redundant root can lower a selection)"+det)
+	// the loop is left only when nothing changed
+	okBreak := false
+	ast.Inspect(outer.Body, func(n ast.Node) bool {
+		is, isIf := n.(*ast.IfStmt)
+		if !isIf {
+			return true
+		}
+		if u, isNot := ast.Unparen(is.Cond).(*ast.UnaryExpr); isNot && u.Op == token.NOT && identObj(info, u.X) == flagObj && flagObj != nil {
+			for _, st := range is.Body.List {
+				if b, isBr := st.(*ast.BranchStmt); isBr && b.Tok == token.BREAK {
+					okBreak = true
+				}
+			}
+		}
+		return true
+	})
+	nBreak := 0
+	ast.Inspect(outer.Body, func(n ast.Node) bool {
+		switch x := n.(type) {
+		case *ast.ForStmt, *ast.RangeStmt, *ast.SwitchStmt, *ast.SelectStmt, *ast.TypeSwitchStmt, *ast.FuncLit:
+			return false
+		case *ast.BranchStmt:
+			if x.Tok == token.BREAK {
+				nBreak++
+			}
+		}
+		return true
+	})
+	c.check("tidy.roots-fixpoint-exit", f.Name, outer.Pos(), okBreak && nBreak == 1,
+		"updateRoots' fixpoint loop may be left (break) only under `!rootsUpgraded`")
 }
 
 var c17CaptureExempt = map[string]string{}
